@@ -147,6 +147,27 @@ CONTEXTS = {
     "neg": ("-(", ")"),
     "comment-own": ("# c\n", ""),
     "comment-block": ("/* c */ ", ""),
+    # comments on both sides of the hole (render-time copies of a node defeat any sharing keyed by identity)
+    "attrpath-cc": ("{ a.b = /*c*/ ", " /*d*/; }"),
+    "set-cc": ("{ x = /*c*/ ", " /*d*/; }"),
+    "set-eol": ("{\nx = ", "; # d\n}"),
+    "list-cc": ("[ /*c*/ ", " /*d*/ ]"),
+    "list-eol": ("[\n", " # d\n]"),
+    "paren-cc": ("( /*c*/ ", " /*d*/ )"),
+    "call-cc": ("f ( /*c*/ ", " /*d*/ )"),
+    "let-value-cc": ("let a = /*c*/ ", " /*d*/; in a"),
+    "let-body-cc": ("let a = 1; in /*c*/ ", ""),
+    "with-cc": ("with a; /*c*/ ", ""),
+    "with-env-cc": ("with /*c*/ a /*d*/; ", ""),
+    "lambda-cc": ("a: /*c*/ ", ""),
+    "formal-default-cc": ("{ a ? /*c*/ ", " /*d*/ }: a"),
+    "if-cc": ("if c then /*c*/ ", " /*d*/ else 2"),
+    "else-cc": ("if c then 1 else /*c*/ ", ""),
+    "assert-cc": ("assert a; /*c*/ ", ""),
+    "binop-cc": ("a + /*c*/ (", ") /*d*/"),
+    "select-cc": ("( /*c*/ ", " ).b /*d*/"),
+    "inherit-from-cc": ("{ inherit ( /*c*/ ", " /*d*/ ) a; }"),
+    "interp-cc": ('"${ /*c*/ ', ' /*d*/ }"'),
 }
 
 
@@ -168,6 +189,13 @@ def _pairs():
 
 PAIR_FAMILIES = _pairs()
 FAMILIES.update(PAIR_FAMILIES)
+# every context alone as well: one-line nests reach about 10 levels below the 250-column limit of the harness
+for _c, (_p, _s) in sorted(CONTEXTS.items()):
+    if not cst.parse(_p * 2 + "x" + _s * 2).root.has_error:
+        FAMILIES["single:" + _c] = (lambda p, s: (lambda d: p * d + "x" + s * d))(_p, _s)
+        # the same nest as the last binding of a long file (about 5 000 renders come first): sharing must not wear out with size
+        if "\n" in _p + _s or len(_p + _s) <= 6:
+            FAMILIES["wide:" + _c] = (lambda p, s: (lambda d: "{\n" + "".join(f"  a{i} = {{ b = 1; c = [ 1 2 ]; d = f x; e.f = \"s\"; }};\n" for i in range(200)) + "  z = " + p * d + "x" + s * d + ";\n}\n"))(_p, _s)
 
 
 def work_of(text):
@@ -196,7 +224,7 @@ def work_of(text):
     return status, count
 
 
-RATIO_LIMIT = 20.0
+RATIO_LIMIT = 12.0  # degree <= 3.5; the largest ratio on the current tree is 3.9 (quadratic)
 
 
 def family_check(name, d):
@@ -299,7 +327,7 @@ def atheris_campaign(sh, runs, max_time):
 
 
 def plan(tier):
-    return {"shards": 16, "examples": 1200 if tier == "quick" else 30000, "depths": [4, 8] if tier == "quick" else [3, 4, 6, 8, 12, 16], "pair_depths": [4, 8] if tier == "quick" else [3, 5, 8, 12], "fuzz_runs": 30000 if tier == "quick" else 3000000, "fuzz_time": 20 if tier == "quick" else 420, "wall_limit": 300 if tier == "quick" else 2400}
+    return {"shards": 16, "examples": 1200 if tier == "quick" else 30000, "depths": [4, 8] if tier == "quick" else [3, 4, 6, 8, 12, 16], "pair_depths": [4, 8] if tier == "quick" else [3, 5, 8, 12], "single_depths": [5, 8, 12] if tier == "quick" else [3, 4, 5, 6, 8, 12, 16, 24], "fuzz_runs": 30000 if tier == "quick" else 3000000, "fuzz_time": 20 if tier == "quick" else 420, "wall_limit": 300 if tier == "quick" else 2400}
 
 
 def run_shard(sh):
@@ -315,7 +343,7 @@ def run_shard(sh):
     for i, name in enumerate(names):
         if i % sh.nshards != sh.index:
             continue
-        for d in (sh.params["pair_depths"] if name.startswith("pair:") else sh.params["depths"]):
+        for d in (sh.params["pair_depths"] if name.startswith("pair:") else sh.params["single_depths"] if name.startswith(("single:", "wide:")) else sh.params["depths"]):
             case = {"kind": "family", "family": name, "d": d}
             if name in fam_block or any(name.startswith("pair:") and fb.startswith("ctx:") and fb[4:] in name[5:].split("+") for fb in fam_block):
                 sh.excluded += 1
